@@ -15,26 +15,26 @@ CLAIMED = {
             "return value (C01_simulate_coherent); address collisions raise. The law clause is mechanised for finite discrete Cond-free programs (any nesting of dist/@gen/Vmap/Scan): "
             "simulate produces the values of a run-determining choice map with probability 2^assess (C01_simulate_law, via the importance identity of Lemmas/Law.v); for Cond programs it is not (partial). "
             "Correspondence: random programs run on implementation and model, eager and jit.",
-            GFI_NOTE, "Coq proof by mutual induction over program syntax + differential correspondence (vm_compute)", "7/C01"),
+            GFI_NOTE, "Coq proof by mutual induction over program syntax + differential correspondence (vm_compute)", "5/C01"),
     "C02": ("Theorem C02_generate for all programs/constraints/outcomes: coherent trace, every constrained visited site holds its constrained value, "
             "weight = sum of log-probabilities of exactly the constrained sites; corollaries none=>0, all=>density, unbound sub-call contributes 0. "
             "Proper weighting (C02_importance_identity, C02_weight_unbiased): for every Cond-free program, every constraint over a finite outcome universe and every test function G, "
             "E_generate[exp(w) G(trace)] = E_simulate[1{constraints hold} G(trace)] in a finite-support expectation semantics of the sampling monad (exact rationals); Cond programs are excluded (partial).",
-            GFI_NOTE, "Coq proof by mutual induction over program syntax + differential correspondence (vm_compute)", "7/C02"),
+            GFI_NOTE, "Coq proof by mutual induction over program syntax + differential correspondence (vm_compute)", "5/C02"),
     "C03": ("Theorems for all programs: the updated trace is coherent under the new arguments; weight = log p(new) - log p(old) (static address skeleton), "
             "including Cond flips (after the fix commit); telescoping. The frame clause is proved for Cond-free programs (C03_update_frame); discard / round trip are judged per case by the correspondence "
             "(upd_spec); the full frame statement is refuted for Cond flips (known finding K1, witness theorem C03_frame_full_refuted).",
-            GFI_NOTE, "Coq proof by mutual induction over program syntax + differential correspondence (vm_compute)", "7/C03"),
+            GFI_NOTE, "Coq proof by mutual induction over program syntax + differential correspondence (vm_compute)", "5/C03"),
     "C04": ("Theorems for all programs/selections/outcomes: regenerated trace coherent; weight = density change minus selected-prior change when no Cond flips; "
             "all-selected => 0; none-selected => plain ratio; frame for Cond-free programs (C04_regenerate_frame). Frame with Cond, discard and definedness are judged per case by the correspondence (regen_spec).",
-            GFI_NOTE, "Coq proof by mutual induction over program syntax + differential correspondence (vm_compute)", "7/C04"),
+            GFI_NOTE, "Coq proof by mutual induction over program syntax + differential correspondence (vm_compute)", "5/C04"),
     "C16": ("Theorems for ALL selection expressions and paths (structural induction over sel, nested dicts included): the match-chain + '() in' probe used by "
             "regenerate/filter equals the Boolean-algebra denotation sem (or/and/not, str = head, tuple = prefix, dict delegation); filter splits the leaves of "
             "every choice map into exactly the selected and the unselected ones (C16_filter_partition). merge(a,b)=x is judged per case by the correspondence. "
             "Correspondence runs natively: all atoms and depth-1 combinations, random depth-3 expressions, all paths of length<=3, filter/merge on nested dict shapes.",
             "Trusted: Coq kernel; hand model of *Sel.match / Selection / sel / Fn.filter / Distribution.filter / Fn.merge in coq/Model/Gfi.v tied to /repo by "
             "harness/worker_sel.py + coq/Model/CorrSel.v (runs natively, no overlay). No axioms.",
-            "Coq proof by structural induction over selection syntax and choice maps + exhaustive/differential correspondence (vm_compute)", "7/C16"),
+            "Coq proof by structural induction over selection syntax and choice maps + exhaustive/differential correspondence (vm_compute)", "5/C16"),
     "C06": ("Theorems: the keys a seeded call hands to its sites (hence its result) do not depend on the global key counter or the staging cache (C06_seed_pure, C06_repeatable); a seeded call "
             "only advances the counter; incomparable root keys give pairwise incomparable site keys. eager = jit = vmap-over-keys is JAX's contract, exercised by the correspondence "
             "(same key terms in all three modes, across interleavings with unseeded sampling, other seeded runs and counter jumps).",
@@ -42,7 +42,7 @@ CLAIMED = {
             "higher-order primitives), of the lowering rule and of the JVP rule (raises for traced primals); keys are terms of the key algebra with split(k)[i] identified with fold_in(k,i) (true for "
             "partitionable threefry, observed by the harness); distinct terms = independent streams is the PRNG idealisation (JAX's contract), not proved; harness/worker_seed.py maps raw key "
             "data back to terms by BFS over real split/fold_in. No axioms.",
-            "Coq proof over a mini-Jaxpr model + key-echo census correspondence (vm_compute)", "7/C06"),
+            "Coq proof over a mini-Jaxpr model + key-echo census correspondence (vm_compute)", "5/C06"),
     "C07": ("Theorem C07_sites_get_distinct_streams: for EVERY program shape (sequences, conds, nested scans, cond in scan), every root key and every branch choice, the keys of all "
             "sample-site instances of one seeded run are pairwise incomparable terms (none equal to or derived from another) strictly derived from the root (induction over the Jaxpr). "
             "Statistical independence / correct marginal law additionally need the PRNG idealisation and TFP's samplers (not proved); vectorized lanes get one key + extended sample_shape (C08).",
@@ -50,7 +50,7 @@ CLAIMED = {
             "higher-order primitives), of the lowering rule and of the JVP rule (raises for traced primals); keys are terms of the key algebra with split(k)[i] identified with fold_in(k,i) (true for "
             "partitionable threefry, observed by the harness); distinct terms = independent streams is the PRNG idealisation (JAX's contract), not proved; harness/worker_seed.py maps raw key "
             "data back to terms by BFS over real split/fold_in. No axioms.",
-            "Coq proof by induction over the mini-Jaxpr + key-echo census correspondence (vm_compute)", "7/C07"),
+            "Coq proof by induction over the mini-Jaxpr + key-echo census correspondence (vm_compute)", "5/C07"),
     "C14": ("Theorems: compiling any traced program containing a sample primitive at any depth raises (C14_lowering_raises, by the model of JAX's recursive lowering); seed either removes "
             "every site or leaves sites only under constructs it does not interpret, and then compiling raises (C14_seed_removes_or_raises); the full property - every program containing a site, also under grad / jvp / value_and_grad, raises when "
             "staged - holds for the model (C14_full_holds; it was refuted before fix F25, the former known finding K2); seed over a differentiated block raises too (C14_seed_over_grad_raises).",
@@ -58,14 +58,14 @@ CLAIMED = {
             "higher-order primitives), of the lowering rule and of the JVP rule (raises for traced primals); keys are terms of the key algebra with split(k)[i] identified with fold_in(k,i) (true for "
             "partitionable threefry, observed by the harness); distinct terms = independent streams is the PRNG idealisation (JAX's contract), not proved; harness/worker_seed.py maps raw key "
             "data back to terms by BFS over real split/fold_in. No axioms.",
-            "Coq proof over a mini-Jaxpr model + outcome-class correspondence (vm_compute)", "7/C14"),
+            "Coq proof over a mini-Jaxpr model + outcome-class correspondence (vm_compute)", "5/C14"),
     "C19": ("Theorem C19_state_collects: for EVERY program of named/leaf-mode saves, namespaces, scans (forward or reverse, nested, under namespaces), vmaps and deterministic code, the State interpreter "
             "(flat equation list + namespace stack + fresh interpreter per scan body + leafwise stacking + merge at the current namespace) collects exactly the specification's dictionary "
             "and restores the namespace stack (structural induction over programs); a save is found under path/name, later writes win, other names are untouched. Transparency "
             "(state does not change the result) and jit/seed are checked by the correspondence only. Saves inside cond are outside the claim.",
             "Trusted: Coq kernel; hand model coq/Model/StateM.v of State.eval_jaxpr_state / save / tag_state / namespace and of tracing (namespace -> push/pop, vmap -> batched saved values); "
             "harness/worker_state.py encodes site and dynamic instance into each saved value and compares the collected dictionaries structurally. No axioms.",
-            "Coq refinement proof (interpreter = specification, induction over program syntax) + differential correspondence (vm_compute)", "7/C19"),
+            "Coq refinement proof (interpreter = specification, induction over program syntax) + differential correspondence (vm_compute)", "5/C19"),
     "C08": ("Theorems over a model of numpy/TFP parameter broadcasting: for any site sample_shape, any number of lanes and batched parameters of equal per-lane rank (unbatched ones of "
             "smaller or equal rank), every output element [lane, s, j] of the vectorized site is drawn with exactly that lane's parameter elements, lanes laid out after the site's own "
             "sample_shape (C08_sample_rule_lanewise); distinct lanes are distinct draws with batched parameters and with axis_size alone (never one draw broadcast); the statement without the "
@@ -73,7 +73,7 @@ CLAIMED = {
             "against jax.vmap; the Vmap combinator is exercised by C01-C05 on AVmap programs (lane-wise compile).",
             "Trusted: Coq kernel; hand model coq/Model/Vmap.v of VmapBatchHandler._handle_modular_vmap after batch axes are moved to the front, and of right-aligned size-1 broadcasting; TFP's "
             "'one independent draw per output element' contract is an oracle; harness/worker_vmap.py decodes the parameter elements behind each output element of a parameter-echo sampler. No axioms.",
-            "Coq proof over a broadcasting model + parameter-echo correspondence (vm_compute) + comparison with jax.vmap", "7/C08"),
+            "Coq proof over a broadcasting model + parameter-echo correspondence (vm_compute) + comparison with jax.vmap", "5/C08"),
     "C11": ("Theorem C11_adev_unbiased: for EVERY expectation program of flip sites with enumeration / REINFORCE / measure-valued estimators composed in any order with arbitrary "
             "deterministic dual-number code (HOAS), all parameters in the open domain: mean primal = E[f], mean tangent = derivative of E[f] (tangent of the exact dual expectation), by "
             "induction over the program over canonical rationals; enumeration is exact with zero variance (C11_enum_exact); reparameterised sites give the pathwise derivative for the noise drawn. "
@@ -82,14 +82,14 @@ CLAIMED = {
             "Trusted: Coq kernel; hand model coq/Model/Adev.v of the CPS interpreter's sample branch and of FlipEnum / REINFORCE / FlipMVD.prim_jvp_estimate (the pure continuation "
             "modelled as a fresh primal sample); dual arithmetic stands for differentiation (sound for the rational programs generated); harness/worker_adev.py scripts site outcomes by replacing "
             "adev.flip and building a REINFORCE primitive around a scripted sampler with the public reinforce(); tolerance 5e-5. No axioms.",
-            "Coq proof by induction over HOAS expectation programs (field identities in Qc) + scripted-outcome correspondence (vm_compute)", "7/C11"),
+            "Coq proof by induction over HOAS expectation programs (field identities in Qc) + scripted-outcome correspondence (vm_compute)", "5/C11"),
     "C15": ("Theorems: for every primitive whose JVP rule meets JAX's contract and every mix of symbolic-zero / float0 / materialised tangents, the interpreter's default branch "
             "(canonicalise, all-zero shortcut, instantiate) returns jax.jvp's primal and tangent (C15_default_is_jvp); cond hands lax.cond the reversed branch list, selecting the same branch "
             "as cond_p's index (C15_cond_either_branch); estimate returns the value. The per-primitive JVP rules are JAX's (oracle); whole-program agreement with jax.jvp / jax.grad / f on "
             "scalar, array and pytree arguments is checked by the correspondence.",
             "Trusted: Coq kernel; small hand model coq/Model/AdevDet.v of the default branch, tangent helpers and cond branch; harness/worker_adev.py compares 15 deterministic program "
             "templates with jax.jvp/jax.grad (tolerance 1e-5) and the canonicalisation helpers with the model. No axioms.",
-            "Coq proof over an abstract-primitive model + differential comparison with jax.jvp/jax.grad", "7/C15"),
+            "Coq proof over an abstract-primitive model + differential comparison with jax.jvp/jax.grad", "5/C15"),
     "C17": ("Theorems for ALL targets, families, constraints, arguments and draws: objective = log p(merged choices) - log q(z) (C17_elbo_value); equal to log p(x) for every draw when q is the "
             "exact posterior (C17_elbo_tight); on overlapping addresses the family's choice wins in the merge; optimize_vi applies params + lr*gradient at every iteration, the history holds every "
             "iterate and the final parameters are the last one, for every gradient estimator, learning rate and iteration count (C17_vi_rule, induction over iterations). "
@@ -99,7 +99,7 @@ CLAIMED = {
             "Trusted: Coq kernel; model coq/Model/Vi.v on top of the GFI model; harness/worker_vi.py builds the family from a REINFORCE primitive with scripted outcomes (public reinforce()), "
             "values divided by ln 2; optimize_vi compared on deterministic quadratic objectives with tolerance 1e-4. Axioms: none for the program-level theorems; the two real-valued bound theorems "
             "depend on the standard library's real-number axioms (sig_not_dec, sig_forall_dec, functional_extensionality_dep, classic).",
-            "Coq proof (corollaries of the GFI theorems; induction over iterations) + differential correspondence (vm_compute)", "7/C17"),
+            "Coq proof (corollaries of the GFI theorems; induction over iterations) + differential correspondence (vm_compute)", "5/C17"),
     "C20": ("HMM, fully mechanised for every number of states, every table and every observation sequence of length >= 1 (exact rationals): the forward message is the sum of the joint over "
             "all earlier state paths, the marginal likelihood equals brute-force summation over all state sequences, the filtering distribution is normalised, compute_sequence_log_prob "
             "is the joint of the path, and forward-filtering backward-sampling assigns every reachable path probability joint/marginal (induction over the sequence). "
@@ -110,7 +110,7 @@ CLAIMED = {
             "Trusted: Coq kernel; hand models coq/Model/Hmm.v and coq/Model/Kalman.v (with the small matrix library coq/Model/Mat.v: Gauss-Jordan inverse/determinant over Q); "
             "harness/worker_ssm.py runs natively (no overlay), exponentiates float32 log outputs in float64 and records backward_sample's logits under scripted draws (jit disabled); "
             "the Kalman log marginal likelihood is checked through rational enclosures of exp with a literal enclosure of ln(2 pi); tolerance 2e-4. No axioms.",
-            "Coq proof by induction over the observation sequence (HMM) + differential correspondence and dense-conditioning judgement (vm_compute)", "7/C20"),
+            "Coq proof by induction over the observation sequence (HMM) + differential correspondence and dense-conditioning judgement (vm_compute)", "5/C20"),
     "C13": ("Model: for each of the 24 exported distributions and each documented call signature (positional and keyword: probs vs logits, rate vs log_rate, covariance, ...) the log "
             "density / log mass as a reflected real expression of rational parameters and value (coq/Model/Dists.v: spec, doc_table). Theorems (all parameters, all sizes): total mass 1 for "
             "flip, bernoulli (probs and logits), categorical over any non-empty logits, binomial for every n; geometric counts failures from 0 with mass p(1-p)^k, partial masses "
@@ -123,7 +123,7 @@ CLAIMED = {
             "Trusted: Coq kernel; coq-interval's reflexive tactic (kernel-checked via vm_compute); the standard library's classical real-number axioms (sig_not_dec, sig_forall_dec, "
             "functional_extensionality_dep, classic) as reported by Print Assumptions; hand model coq/Model/Dists.v; harness/worker_dists.py (overlay; parameters and values rounded to "
             "float32 and passed as exact rationals; tolerance 1e-3 + 1e-4|logpdf|); scipy.stats as the reference for the sampler law (fixed keys, rejection below p = 1e-6).",
-            "Coq proof over the reals (normalisation identities, induction over supports) + per-case certified interval arithmetic (Interval) + goodness-of-fit validation", "7/C13"),
+            "Coq proof over the reals (normalisation identities, induction over supports) + per-case certified interval arithmetic (Interval) + goodness-of-fit validation", "5/C13"),
     "C09": ("Theorems: accept iff log u < min(0, log_alpha) (all kernels); the MH balance identity a*min(1,b/a) = b*min(1,a/b); the weight mh uses is the MH log ratio of the "
             "regenerate-from-prior proposal (via C04); mala's log_alpha is the MH log ratio of the Langevin proposal with drift eps^2/2*grad, scale eps, one noise per coordinate; "
             "n leapfrog steps are reversible under momentum flip for ANY gradient function over ANY commutative ring; rejected moves return the input; unselected coordinates untouched. "
@@ -134,7 +134,7 @@ CLAIMED = {
             "Trusted: Coq kernel; model coq/Model/Mcmc.v over exact rationals with dual-number gradients for Gaussian programs (affine means); jax.grad is an oracle validated by the "
             "correspondence; harness/worker_mcmc.py scripts noise/momentum/threshold by replacing module globals mcmc.normal/uniform and reads log_alpha through a jnp.minimum proxy that "
             "calls state.save; tolerance 2e-4, decisions within 1e-3 of the threshold are not judged. No axioms.",
-            "Coq proof (ring/field identities, induction on leapfrog count) + differential correspondence on scripted kernels (vm_compute)", "7/C09"),
+            "Coq proof (ring/field identities, induction on leapfrog count) + differential correspondence on scripted kernels (vm_compute)", "5/C09"),
     "C10": ("Theorems for ALL targets/proposals/constraints/outcomes: per-particle log weight of init/extend = log p(choices, obs) - log q(proposed or unconstrained choices) "
             "(default proposal: C10_default_weight; custom proposal with merge precedence: C10_custom_weight / C10_extend_custom_weight), rejuvenation keeps weights for any kernel, "
             "resampling keeps exp(lml) for any index vector. Unbiasedness of the evidence estimate is mechanised for init with the default proposal (C10_init_estimate_unbiased: N independent particles, "
@@ -142,7 +142,7 @@ CLAIMED = {
             "and rejuvenation_smc itself with return_all_particles=True (every time step judged as resampled / not resampled).",
             "Trusted: Coq kernel; model coq/Model/Smc.v (particle-level init/extend/rejuvenate) + Model/Resample.v; harness/worker_smc.py (log weights divided by ln 2 and rounded; "
             "exp(lml) compared within 5e-4 relative in exact rationals). No axioms.",
-            "Coq proof (corollaries of the generate theorem; field identity for resampling) + specification judgement of implementation snapshots (vm_compute)", "7/C10"),
+            "Coq proof (corollaries of the generate theorem; field identity for resampling) + specification judgement of implementation snapshots (vm_compute)", "5/C10"),
     "C12": ("Theorem C12_systematic_floor_ceil: for EVERY non-negative weight vector with positive total (0 = -inf log weight), every N>=1 and EVERY offset u=a/b in (0,1), "
             "particle i gets floor(N w_i) or ceil(N w_i) copies (exact integer model of cumsum/searchsorted; proof by counting positions below each cumulative weight); zero weight => no copies; "
             "resample: each output particle is the whole input particle at its index, weights reset, diagnostics = pre-resampling normalised weights, exp(lml) unchanged (field identity in Q). "
@@ -153,18 +153,18 @@ CLAIMED = {
             "Trusted: Coq kernel; hand model coq/Model/Resample.v of systematic_resample/resample_vectorized_trace/resample/log_marginal_likelihood over exact integers/rationals; "
             "correspondence harness/worker_resample.py scripts the offset (monkeypatching smc.uniform), skips exact float ties (the total weight is not one: offsets at the ends of (0,1) are scripted on weight vectors whose float32 cumulative sum ends below 1, and every index must name an input particle), compares indices exactly and lml within 5e-5; the float32 cumulative sum itself is modelled (exact arithmetic), not verified; "
             "the diagnostic-weight clause is compared in the harness with tolerance 1e-5. No axioms.",
-            "Coq proof (counting argument over all offsets) + differential correspondence (vm_compute)", "7/C12"),
+            "Coq proof (counting argument over all offsets) + differential correspondence (vm_compute)", "5/C12"),
     "C18": ("Theorems for ANY kernel, any per-step randomness, all n_steps/burn_in/thinning>=1: traces[i] = state after burn+i*thin+1 kernel applications, accepts[i] = that step's flag, "
             "result = the slice burn::thin of the un-thinned run with the same randomness, n_steps = ceil((n-burn)/thin), accepted count = number of true retained flags. "
             "Multi-chain: the model maps the single-chain computation over the chains (C18_chains_lanewise: leading chain axis, chain c = single-chain result on its randomness); that the "
             "implementation does so is checked by the correspondence, independence of the chains' randomness rests on C06-C08.",
             "Trusted: Coq kernel; hand model coq/Model/Chain.v (scan + arange + index selection); correspondence harness/worker_chain.py runs chain() with scripted deterministic "
             "kernels (incl. one saving a second diagnostic) for 1 and 3 chains and the real mh kernel under seed (thinned vs un-thinned with the same key, float bit patterns). No axioms.",
-            "Coq proof by induction over the step list + differential correspondence (vm_compute)", "7/C18"),
+            "Coq proof by induction over the step list + differential correspondence (vm_compute)", "5/C18"),
     "C05": ("Theorem C05_history_coherent: after ANY finite history of update/regenerate/mh-shaped/mala-hmc-shaped moves (accepted or rejected) and identity round trips "
             "the trace is coherent w.r.t. its recorded arguments (induction over the history); update weights telescope. 'Observed addresses keep their values' is judged "
             "per case by the correspondence only (random edit histories, and real mala / hmc / mh kernel steps with scripted noise: frame, accept rule, coherence of the returned trace).",
-            GFI_NOTE, "Coq proof by induction over histories (fold over ops) + differential correspondence (vm_compute)", "7/C05"),
+            GFI_NOTE, "Coq proof by induction over histories (fold over ops) + differential correspondence (vm_compute)", "5/C05"),
 }
 PENDING_REASON = "check not built yet in this session (planned; see DESIGN.md section 7)"
 
